@@ -204,6 +204,19 @@ func newLoop(bufSize uint32) *loop {
 func check(c Case, lp *loop) string {
 	want, wfOnly := wire(c)
 	var m midi.Message
+	// a caller owns the message it got and may append to it (e.g. to build a byte stream): that
+	// must never reach the message another call returns
+	ev.Try(func() {
+		for _, da := range []int{-1, 0} {
+			d := c
+			d.A = c.A + da
+			if d.A < 0 {
+				continue
+			}
+			pm := construct(d)
+			_ = append(pm, 0xEE, 0xEE, 0xEE, 0xEE)
+		}
+	})
 	if p := ev.Try(func() { m = construct(c) }); p != "" {
 		return "constructor: " + p
 	}
@@ -317,7 +330,7 @@ var predecessors = []midi.Message{
 }
 
 var ctors = ev.NewCheck("C07", "constructors",
-	"exhaustive: NoteOn/NoteOff/NoteOffVelocity/PolyAfterTouch/ControlChange over 16x128x128, ProgramChange/AfterTouch 16x128, Pitchbend 16 x all 65536 int16 values, SPP all 65536, SongSelect and MTC all 256, Tune; plus out-of-range grid channel {16,17,127,128,255} x data {128,129,200,254,255} x in-range partners {0,1,64,127}; oracle = independent MIDI 1.0 wire table (status nibble|channel, clamped 7-bit data, 14-bit LSB first), no data byte > 127 for any argument, matching accessor returns the (clamped) arguments, every other type-specific accessor of midi.Message and smf.Message (incl. all meta accessors) rejects, derived views by definition, every accessor also with each subset of nil out-parameters (the API fills only non-nil arguments), and loopback through testdrv, directly behind a predecessor message of a rotating constructor kind on the same connection, listening with the default sysex buffer or with one of 1 or 2 bytes, delivers the same bytes (quick: every 16th tuple, thorough: all); non-trivial = some data argument != 0; tuples are distinct by construction",
+	"exhaustive: NoteOn/NoteOff/NoteOffVelocity/PolyAfterTouch/ControlChange over 16x128x128, ProgramChange/AfterTouch 16x128, Pitchbend 16 x all 65536 int16 values, SPP all 65536, SongSelect and MTC all 256, Tune; plus out-of-range grid channel {16,17,127,128,255} x data {128,129,200,254,255} x in-range partners {0,1,64,127}; before every case the messages of the same and the preceding first argument are constructed and appended to by the caller (results must not share memory); oracle = independent MIDI 1.0 wire table (status nibble|channel, clamped 7-bit data, 14-bit LSB first), no data byte > 127 for any argument, matching accessor returns the (clamped) arguments, every other type-specific accessor of midi.Message and smf.Message (incl. all meta accessors) rejects, derived views by definition, every accessor also with each subset of nil out-parameters (the API fills only non-nil arguments), and loopback through testdrv, directly behind a predecessor message of a rotating constructor kind on the same connection, listening with the default sysex buffer or with one of 1 or 2 bytes, delivers the same bytes (quick: every 16th tuple, thorough: all); non-trivial = some data argument != 0; tuples are distinct by construction",
 	nil, func(c Case) (res ev.Result) {
 		res.Nontrivial = true
 		var lp *loop
